@@ -104,6 +104,20 @@ def genOf (s : String) : Option (List Int) :=
     let body := r.takeWhile (· ≠ ']')
     if (r.dropWhile (· ≠ ']')) == [']'] then intListOf body else none
 
+def hintOf (s : String) : Option (Option Nat) :=
+  if s == "N" then some none else (natOfS s).map some
+
+def seqOf (s : String) : Option (List SeqItem) :=
+  match stripPrefix "sq[" s.toList with
+  | none => none
+  | some r =>
+    let body := r.takeWhile (· ≠ ']')
+    if (r.dropWhile (· ≠ ']')) != [']'] then none else
+    if body.isEmpty then some [] else
+    (splitOnChar ',' body).foldr (fun t acc => match acc with
+      | none => none
+      | some l => if t == ['E'] then some (SeqItem.err :: l) else (intOf t).map (fun v => SeqItem.val v :: l)) (some [])
+
 def allInts (ws : List String) : Option (List Int) :=
   ws.foldr (fun t acc => match acc, intOfS t with
     | some l, some v => some (v :: l)
@@ -164,6 +178,9 @@ def parseOp (ws : List String) : Option Op :=
   | ["len", it] => some (.len it)
   | ["as_slice", it] => some (.as_slice it)
   | ["clone_iter", it, itn] => some (.clone_iter it itn)
+  | ["serialize", r] => some (.serialize r)
+  | ["deserialize", r, h, sq] => do some (.deserialize r (← hintOf h) (← seqOf sq))
+  | ["deserialize_in_place", r, h, sq] => do some (.deserialize_in_place r (← hintOf h) (← seqOf sq))
   | _ => none
 
 def showElem (e : Elem) : String := s!"{e.id}:{e.val}"
@@ -179,6 +196,7 @@ def showOut : Out → String
   | .hint lo hi => s!"{lo} " ++ (match hi with | some h => toString h | none => "N")
   | .elems es => showElems es
   | .errName s => "err " ++ s
+  | .err => "err"
   | .cmp eq pc c heq =>
     (if eq then "eq" else "ne") ++ " " ++ (match pc with | some o => showOrd o | none => "none") ++ " "
       ++ showOrd c ++ " " ++ (if heq then "heq" else "hne")
@@ -261,6 +279,7 @@ def idBound (w : World) : Op → Nat
   | .resize_with r n _ => n - (match w.get r with | some (.vec v) => (if v.isDefault then 0 else v.len) | _ => 0)
   | .extend_from_within r _ _ | .clone r _ => (match w.get r with | some (.vec v) => (if v.isDefault then 0 else v.len) | _ => 0)
   | .clone_iter it _ => (match w.get it with | some (.intoIter v _) => (if v.isDefault then 0 else v.len) | _ => 0)
+  | .deserialize _ _ sc | .deserialize_in_place _ _ sc => (sc.filter (fun i => match i with | .val _ => true | .err => false)).length
   | _ => 0
 
 def roomFor (cs : Case) (op : Op) : Bool :=
